@@ -488,9 +488,10 @@ def units(tier, seed):
             us.append({'harness': 'history', 'client': 'geophires', 'H': H, 'caching': caching})
         us.append({'harness': 'history', 'client': 'hip', 'H': H, 'caching': False})
     us.append({'harness': 'dummy'})
-    from . import c08files, c08seed
+    from . import c08files, c08seed, c08state
     us += c08files.units(tier)
     us += c08seed.units(tier)
+    us += c08state.units(tier)
     return us
 
 
@@ -501,6 +502,9 @@ def run_unit(unit):
     elif unit['harness'] == 'client-real-files':
         from . import c08files
         yield from c08files.run_unit(unit)
+    elif unit['harness'] == 'global-state':
+        from . import c08state
+        yield from c08state.run_unit(unit)
     elif unit['harness'] == 'history':
         yield from run_history_unit(unit)
     elif unit['harness'] == 'fresh':
